@@ -255,10 +255,17 @@ def run_sweep(c):
     V = r['violations']
     scn = build_scn(c, seed=c.get('seed', 0))
     with S.Built(scn) as b:
+        cap = S.capture_log()
         try:
-            rx = b.reactor()
+            with cap:
+                rx = b.reactor()
         except SystemExit as e:
-            V.append(violation('setup-rejected', c, 'valid generated input rejected at set-up', site=site_of(e)))
+            if any('Axial step size must be at least' in m for m in cap.errors):
+                # stability requirement below 1e-6 m: DASSH refuses the problem
+                r['outcome'] = 'rejected-step-too-small'
+                return r
+            V.append(violation('setup-rejected', c, 'valid generated input rejected at set-up: %s'
+                               % '; '.join(cap.errors)[:200], site=site_of(e)))
             r['outcome'] = 'rejected'
             return r
         rec = O.Recorder(rx)
@@ -395,7 +402,7 @@ def run_lag(c):
             if dz0 is None:
                 dz0 = float(rx.req_dz)
                 # first pass: honour a round step below the limit
-                dz0 = float(np.floor(dz0 * 0.8 * 1e4) / 1e4)
+                dz0 = float('%.2g' % (0.8 * dz0))
                 scn2 = build_scn(c, dz_user=dz0)
                 b2 = S.Built(scn2)
                 try:
